@@ -150,7 +150,14 @@ def make_block(rnd, rhs, sp, lf, with_t, marker, xn='x', ln='L'):
     # malformed: a lag inside a larger expression, no variable name
     lines += [('bad', MALFORMED[j]) for j in range(len(MALFORMED)) if (len(rhs) + j) % 2 == 0 or xn != 'x']
     rnd.shuffle(lines)
-    text = '\n'.join(l for _, l in lines) + '\n' + marker + '\n' + '\n'.join(sp % (v, e) for v, e in exo)
+    # "in any order": run parameters and initial conditions may also be written after the section marker, among the exogenous lines
+    after = []
+    if (len(rhs) + len(xn)) % 3 == 0:
+        after = [l for l in lines if l[0] in ('ic', 'param')][:2]
+        lines = [l for l in lines if l not in after]
+    tail = [sp % (v, e) for v, e in exo] + [l for _, l in after]
+    rnd.shuffle(tail)
+    text = '\n'.join(l for _, l in lines) + '\n' + marker + '\n' + '\n'.join(tail)
     return (text, dict(endo=endo, lag=lag, ic=ic, exo=exo, with_t=with_t))
 
 
